@@ -17,7 +17,7 @@ def end_proof():
           expect=['uncrustify_end_contract.postcondition', 'loop_decreases'],
           mutants=[('reset_line_removed', r'cpd.unc_off     = false;\n', '', 'postcondition'),
                    ('le_counts_not_cleared', r'memset\(cpd.le_counts, 0, sizeof\(cpd.le_counts\)\);\n', '', 'postcondition'),
-                   ('stops_after_one_chunk', r'while \(\(pc = Chunk::GetHead\(\)\)->IsNotNullChunk\(\)\)', 'if ((pc = Chunk::GetHead())->IsNotNullChunk())', 'postcondition'),
+                   ('list_not_always_emptied', r'while \(\(pc = Chunk::GetHead\(\)\)->IsNotNullChunk\(\)\)', 'while ((pc = Chunk::GetHead())->IsNotNullChunk() && cpd.unc_off)', 'postcondition'),
                    ('touches_other_state', r'cpd.changes     = 0;', 'cpd.changes     = 0; cpd.frag_cols = 0;', 'assigns')],
           frame_is_property=True,
           note='the assigns clause is itself a claim here: uncrustify_end() resets per-file state and touches no configuration / per-invocation state')
